@@ -651,3 +651,14 @@ Example ex_chars_ok :
   c_std_safe (Str 72 KNumeric (Some (SCon 0 (Some 8) false)) None) 1 = true /\
   c_std_safe (Str 112 KUniversal None None) 1 = true.
 Proof. vm_compute. auto 10. Qed.
+
+(* ---------------- third deviation of the C: several intervals reaching above U+00FF ----------------
+   BMPString (FROM({0,0,1,0}..{0,0,1,3} | {0,0,2,0}..{0,0,2,3})): 8 characters, 3 bits; asn1c emits no
+   character map (the 256-cell table does not hold the alphabet), the runtime writes value - 256 truncated to
+   3 bits: U+0200 is written as 000 (the code of U+0100) instead of the index 100; the two characters collide. *)
+Definition holes_l : strty := Str 120 KBMP None (Some [(256, 259); (512, 515)]).
+Theorem uper_holes_above_255_refuted :
+  uper_leaf false holes_l (octets_of KBMP [256; 512]) <> spec_uper_km holes_l [256; 512] /\
+  uper_leaf false holes_l (octets_of KBMP [256; 512]) = uper_leaf false holes_l (octets_of KBMP [256; 256]) /\
+  spec_uper_km holes_l [256; 512] = Some (nbits 8 2 ++ nbits 3 0 ++ nbits 3 4).
+Proof. vm_compute. repeat split; try reflexivity. discriminate. Qed.
